@@ -56,6 +56,8 @@ def cells(tier):
                     'faults': 0, 'chain': 1, 'svc': 1})
     out.append({'kind': 'pool', 'size': 1, 'idle': 0, 'k': 3, 'faults': 1,
                 'chain': 2, 'svc': 1})
+    out.append({'kind': 'pool', 'size': 1, 'idle': 1, 'k': 2, 'faults': 1,
+                'lmtp': 1})
     out.append({'kind': 'pool421', 'size': 1})
     out.append({'kind': 'pool421', 'size': 2})
     out.append({'kind': 'deque', 'L': 4})
@@ -76,12 +78,14 @@ def run(cell):
 
 
 OUTCOMES = ['ok', 'refuse-mail', 'refuse-rcpt', 'drop-at-data',
-            'connect-error', 'drop-at-banner', 'refuse-rcpt-slow-rset']
+            'connect-error', 'drop-at-banner', 'refuse-rcpt-slow-rset',
+            'eod-fail-first']
 
 
 class World(object):
-    def __init__(self, size, idle, outcome_of, service_time):
-        from slimta.relay.smtp.static import StaticSmtpRelay
+    def __init__(self, size, idle, outcome_of, service_time, lmtp=False):
+        from slimta.relay.smtp.static import StaticSmtpRelay, StaticLmtpRelay
+        self.lmtp = lmtp
         self.open = 0
         self.max_open = 0
         self.peers = []
@@ -111,7 +115,8 @@ class World(object):
         kw = {}
         if idle:
             kw['idle_timeout'] = 5
-        self.relay = StaticSmtpRelay('mx.example', 25,
+        self.relay = (StaticLmtpRelay if lmtp else StaticSmtpRelay)(
+                                     'mx.example', 25,
                                      pool_size=size or None,
                                      socket_creator=creator, ehlo_as='me',
                                      context=object(), command_timeout=10,
@@ -120,14 +125,14 @@ class World(object):
 
 def make_peer(w, n):
     import gevent
-    state = {'sender': None}
+    state = {'sender': None, 'eod': 0}
 
     def script(stage, i):
         if stage == 'banner':
             if w.outcome_of('conn%d' % n) == 'drop-at-banner':
                 return ('close',)
             return ('reply', '220', ['ready'])
-        if stage == 'EHLO':
+        if stage in ('EHLO', 'LHLO'):
             return ('reply', '250', ['hello', 'PIPELINING', '8BITMIME'])
         if stage == 'DATA':
             o = w.outcome_of(state['sender'])
@@ -137,12 +142,18 @@ def make_peer(w, n):
         if stage == 'QUIT':
             return ('reply', '221', ['bye'])
         if stage == 'EOD':
+            state['eod'] += 1
+            if state['eod'] == 1 and \
+                    w.outcome_of(state['sender']) == 'eod-fail-first':
+                return ('reply', '450', ['4.2.0 later for ' +
+                                         (state['sender'] or '?')])
             if w.service_time is not None:
                 # the server takes a while to accept the message
                 gevent.sleep(w.service_time(state['sender']))
             return ('reply', '250', ['2.0.0 delivered for ' +
                                      (state['sender'] or '?')])
         if stage == 'MAIL':
+            state['eod'] = 0
             if w.outcome_of(state['sender']) == 'refuse-mail':
                 return ('reply', '550', ['5.1.0 no for ' + state['sender']])
             return ('reply', '250', ['ok'])
@@ -157,7 +168,7 @@ def make_peer(w, n):
                 return ('reply', '550', ['5.1.1 no for ' + state['sender']])
             return ('reply', '250', ['ok'])
         return ('reply', '250', ['ok'])
-    peer = nc.ScriptedPeer(script)
+    peer = nc.ScriptedPeer(script, lmtp=w.lmtp)
     orig = peer._on_data
 
     def on_data(data):
@@ -187,7 +198,7 @@ def run_pool(cell):
     faulty = set()
     for j in range(nf):
         target = api.choice('fault_target%d' % j, k + 2)
-        kind = OUTCOMES[1 + api.choice('fault_kind%d' % j, 6)]
+        kind = OUTCOMES[1 + api.choice('fault_kind%d' % j, 7)]
         if target < k:
             if kind in ('connect-error', 'drop-at-banner'):
                 plan['conn%d' % target] = kind
@@ -206,7 +217,8 @@ def run_pool(cell):
             if sender not in durs:
                 durs[sender] = api.real('svc_%s' % sender, 0, 3)
             return durs[sender]
-    w = World(cell['size'], cell['idle'], outcome_of, svc)
+    lmtp = bool(cell.get('lmtp'))
+    w = World(cell['size'], cell['idle'], outcome_of, svc, lmtp=lmtp)
     outs = {}
     times = [api.real('t%d' % i, 0, 8) for i in range(k)]
     chain = cell.get('chain', 0)
@@ -214,7 +226,9 @@ def run_pool(cell):
     def go(i, wait=True):
         if wait:
             gevent.sleep(times[i])
-        env = qc.make_envelope('m%d' % i, 's%d@z' % i, ['r%d@x' % i])
+        env = qc.make_envelope('m%d' % i, 's%d@z' % i,
+                               ['r%d@x' % i] + (['q%d@x' % i] if lmtp
+                                                else []))
         try:
             outs[i] = ('value', w.relay.attempt(env, 0))
         except RelayError as e:
@@ -244,8 +258,14 @@ def run_pool(cell):
         kind, val = outs[i]
         want = plan.get('s%d@z' % i, 'ok')
         sender = 's%d@z' % i
+        if want == 'eod-fail-first':
+            if not lmtp:
+                want = 'refused'      # SMTP: one reply for the message
+            else:
+                want = 'ok'           # LMTP: judged on the second recipient
         if kind == 'value':
-            rep = val.get('r%d@x' % i) if isinstance(val, dict) else val
+            rep = val.get(('q%d@x' if lmtp else 'r%d@x') % i) \
+                if isinstance(val, dict) else val
             if isinstance(rep, Reply):
                 api.prove(sender in rep.message,
                           'result-belongs-to-another-envelope',
@@ -283,7 +303,9 @@ def run_pool(cell):
                     failed = True
             elif stage == 'EOD':
                 open_txn = False
-                failed = False
+                # (LMTP: one reply per recipient; any refusal fails the
+                # transaction)
+                failed = failed or not ok
             elif stage in ('RSET', 'QUIT'):
                 open_txn = False
                 failed = False
